@@ -455,6 +455,10 @@ def judge(env, world, case, viol, classes) -> None:
                 phase = "idle"
             if disc_cb is not None:
                 disc_cb["t1"] = t
+            if not stopped and phase == "idle" and disc_cb is not None and disc_cb.get("record_during"):
+                # a record pushed onto the (unregistered) manager while the user's on_disconnect callback was still
+                # running: it is already "waiting", the reaction can only start once the callback has returned
+                justified_now.append((t, "matching mDNS record (force-delivered) during the on_disconnect callback", False))
             if not stopped and phase == "idle":
                 if e["expected"]:
                     slot = [t + 5.0]
@@ -489,6 +493,9 @@ def judge(env, world, case, viol, classes) -> None:
                 # statement silent: the implementation restarts an attempt that is still at the TCP stage
                 classes.add("mdns_during_tcp_stage")
                 justified_now.append((t, "matching mDNS record while the attempt was still connecting (restart)", False))
+            elif e["matching"] and not stopped and phase == "in_callback" and disc_cb is not None:
+                classes.add("mdns_during_disconnect_callback")
+                disc_cb["record_during"] = True
             elif e["matching"] and phase != "idle":
                 classes.add("mdns_while_busy")
             elif not e["matching"]:
